@@ -1010,3 +1010,7 @@ def run(ctx):
     _run_main_nf(ctx)
     _NF.narrow_oracles(ctx, 'C03', _narrow_table(), variants_fn=_NF.absmax_variants)
     ctx.flush()
+
+
+# evidence: how the model is tied to the source on every run (as built, supersedes the value above)
+TIE = 'translator (spectra assembly -> Gen/SdofSpectra, constants -> Gen/Consts; Props/C03Gen, C03GenSpectra) + correspondence'
